@@ -2,6 +2,8 @@
 """Regenerates the seeded-changes table of DESIGN.md section 11.6 from seeded/*/meta.json."""
 import json, glob, os, re
 NOTES = {
+ 'C17-r5-env-score-copied-from-temporal': 'Strengthened: base-only (and base+temporal) vectors are now also rendered as temporal / environmental reports.',
+ 'C18-r5-negative-cache-parent-index': 'Strengthened: display names are read once before and once after all the other language tags were used (first_title / first_vals) and the regional tag list was widened.',
  'C09-isempty-shortcut-x-vs-omitted': 'Strengthened: first run missed it; C03 now decodes every (version, base) with no / all / some optional metrics spelled X, C09 pairs every base vector omitted-vs-spelled.',
  'C05-clamp-negative-adjusted-base': 'Strengthened: caught only after the negative-equation latitude was tightened to the environmental equation itself (11.4).',
  'C19-reader-data-with-eof': 'Strengthened: readers that deliver the last bytes together with io.EOF and templates beyond 4 KiB / 64 KiB were added.',
